@@ -130,7 +130,7 @@ class SVal:
         self.prov = None   # provenance of ratios / roundings (see provenance())
 
     def __repr__(self):
-        return f"<{type(self).__name__} {self.z}>"
+        return f"<{type(self).__name__} #{self.z.get_id()}>"
 
     __str__ = __repr__
 
